@@ -3,7 +3,7 @@ use syn::{spanned::Spanned, Expr, Lit, LitStr, Meta, MetaNameValue, Path};
 
 #[inline]
 pub(crate) fn meta_name_value_2_path(name_value: &MetaNameValue) -> syn::Result<Path> {
-    match &name_value.value {
+    match super::r#type::ungroup_expr(&name_value.value) {
         Expr::Lit(lit) => {
             if let Lit::Str(lit) = &lit.lit {
                 return lit.parse();
